@@ -521,7 +521,7 @@ Section XssStep.
               else Ok false
           | AList [] => xss_loop id until rest secure
           | AList l =>
-              do ok <- xss_all until l;;
+              do ok <- xss_all (node_line st) l;;
               if ok then xss_loop id until rest true else Ok false
           end
     end.
